@@ -148,16 +148,96 @@ def run(ctx) -> None:
     else:
         ctx.fail("R05b", vb, b.ast, inst, "instructions after the block can start although the block has not been ended")
     # ---- R05c
-    nested = [n for n in walk_no_nested(vb.node) if isinstance(n, ast.FunctionDef) and n is not vb.node and n.name == "try_acquire_lock"]
-    if not nested:
-        raise AnchorError("visit_BlockNode: try_acquire_lock not found")
-    gn = build(nested[0])
-    acq = [n for n in gn.nodes if n.kind == "stmt" and isinstance(n.ast, ast.Assign) and norm(n.ast.targets[0]) == "node.lock_acquired"
-           and norm(n.ast.value) == "True"]
-    tests = [n for n in gn.nodes if n.kind == "test" and "not in ancestors" in norm(n.ast)]
+    npar = vb.node.args.args[1].arg
+    hosts = [n for n in ast.walk(vb.node) if isinstance(n, ast.FunctionDef)]
+    host = None
+    for h in hosts:      # innermost function that takes the lock
+        if any(isinstance(a, ast.Assign) and isinstance(a.targets[0], ast.Attribute) and a.targets[0].attr == "lock_acquired"
+               and isinstance(a.value, ast.Constant) and a.value.value is True for a in walk_no_nested(h)):
+            host = h
+    if host is None:
+        raise AnchorError("visit_BlockNode: the statement that takes the block lock was not found")
+    gn = build(host) if host is not vb.node else g
+    acq = [n for n in gn.nodes if n.kind == "stmt" and isinstance(n.ast, ast.Assign) and isinstance(n.ast.targets[0], ast.Attribute)
+           and n.ast.targets[0].attr == "lock_acquired" and isinstance(n.ast.value, ast.Constant) and n.ast.value.value is True]
+    hdefs = {}
+    for a in walk_no_nested(host):
+        if isinstance(a, ast.Assign) and len(a.targets) == 1 and isinstance(a.targets[0], ast.Name):
+            hdefs.setdefault(a.targets[0].id, []).append(a.value)
+
+    def hexp(e):
+        return hdefs[e.id][0] if isinstance(e, ast.Name) and len(hdefs.get(e.id, ())) == 1 else e
+    loops = [n for n in gn.nodes if n.kind == "for" and isinstance(n.ast.target, ast.Name)]
+    tests = [(n, lp) for n in gn.nodes if n.kind == "test" for lp in loops
+             if isinstance(n.ast, ast.Compare) and len(n.ast.ops) == 1 and isinstance(n.ast.ops[0], (ast.NotIn, ast.In))
+             and isinstance(n.ast.left, ast.Name) and n.ast.left.id == lp.ast.target.id
+             and norm(hexp(n.ast.comparators[0])) == f"{npar}.parents"]
     inst = "try_acquire_lock: lock only if every locked block is an ancestor"
-    if acq and tests and gn.search([(tests[0].id, "T")], lambda n: n.id == acq[0].id, blocked=lambda n: n.kind == "for") is None \
-            and "get_locked_blocks()" in norm(nested[0]) and "node.parents" in norm(nested[0]):
+    good = bool(acq) and len(tests) == 1
+    if good:
+        tn, lp = tests[0]
+        lab = "T" if isinstance(tn.ast.ops[0], ast.NotIn) else "F"
+        good = gn.search([(tn.id, lab)], lambda n: n.id == acq[0].id) is None \
+            and gn.search(None, lambda n: n.id == acq[0].id, blocked=lambda n: n.id == lp.id) is None
+    if good:
         ctx.ok("R05c", inst)
     else:
-        ctx.fail("R05c", vb, nested[0], inst, "two blocks that are not nested in each other could be active at once")
+        ctx.fail("R05c", vb, host, inst, "two blocks that are not nested in each other could be active at once")
+    # the set of locked blocks the decision iterates over must be computed from the lock flags at the time of the decision
+    if good:
+        tn, lp = tests[0]
+        inst = "try_acquire_lock: the locked blocks are read from the lock flags at the time of the decision"
+        src = _lock_source(ctx, hexp(lp.ast.iter), vb, 0)
+        if src[0] == "fresh":
+            ctx.ok("R05c", inst, {"rule": "R05c", "source": src[1]})
+        elif src[0] == "cached":
+            # a stored snapshot is only as good as its invalidation: every statement that takes a lock must refresh it
+            attr = src[1]
+            stale = None
+            for fn_node, gg in [(host, gn)]:
+                for a in acq:
+                    pth = gg.path_to_exit_avoiding([d for d, l in gg.succ[a.id] if l != "exc"], lambda n: n.kind == "stmt" and any(
+                        t.attr == attr for t, v, st in assigned_attrs(n.ast)))
+                    if pth is not None:
+                        stale = a
+            if stale is None:
+                ctx.ok("R05c", inst, {"rule": "R05c", "source": f"snapshot self.{attr}, refreshed whenever a lock is taken"})
+            else:
+                ctx.fail("R05c", vb, stale.ast, inst, f"the decision reads a stored snapshot (self.{attr}, filled by {src[2]}) that is not "
+                         "refreshed when a block takes the lock: a second block polling after that still sees the lock free, and two "
+                         "blocks that are not nested in each other are active at once")
+        else:
+            ctx.fail("R05c", vb, lp.ast, inst, f"the iterated expression `{src[1]}` is not derived from the lock flags")
+
+
+def _lock_source(ctx, expr, f, depth):
+    """Where the iterable of locked blocks comes from: ("fresh", function) when it is the return value of a function that reads
+    the lock flags, ("cached", attribute, helper) when a helper hands out a stored attribute, else ("unknown", text)."""
+    if depth > 4 or not isinstance(expr, ast.Call):
+        if isinstance(expr, ast.Attribute) and isinstance(expr.value, ast.Name) and expr.value.id == "self":
+            return ("cached", expr.attr, f.short)
+        return ("unknown", norm(expr))
+    outs = []
+    for t in ctx.res.resolve_call(expr, f, cha=False):
+        if any(isinstance(n, ast.Attribute) and n.attr == "lock_acquired" and isinstance(n.ctx, ast.Load) for n in walk_no_nested(t.node)):
+            outs.append(("fresh", t.short))
+            continue
+        from ..util import local_single_defs
+        rets = [n.value for n in walk_no_nested(t.node) if isinstance(n, ast.Return) and n.value is not None]
+        if not rets:
+            outs.append(("unknown", norm(expr)))
+        for r in rets:
+            if isinstance(r, ast.Name):
+                r = local_single_defs(t).get(r.id, r)
+            sv = t.node.args.args[0].arg if t.node.args.args else "self"
+            if isinstance(r, ast.Attribute) and isinstance(r.value, ast.Name) and r.value.id == sv:
+                outs.append(("cached", r.attr, t.short))
+            else:
+                outs.append(_lock_source(ctx, r, t, depth + 1))
+    if not outs:
+        return ("unknown", norm(expr))
+    for kind in ("unknown", "cached", "fresh"):
+        for o in outs:
+            if o[0] == kind:
+                return o
+    return outs[0]
